@@ -619,6 +619,9 @@ def rule_sentinel(m, rep, count=True):
         ct = norm(T.call_term(s))
         a = ct[2][0]
         oka2 = term_callee_is(a, '<alloc::sync::Arc as core::clone::Clone>::clone') and peel_root(a[2][0]) == ('param', 1)
+        if not oka2 and a[0] != 'call':
+            # the spawn function may take `&Arc<Worker>` and clone it itself: then the sentinel's own Arc is passed by reference
+            oka2 = peel_root(a) == ('param', 1) and not any(y[0] == 'call' for y in walk(a))
         rep.ob('R2', 'sentinel-drop/respawns-same-worker', oka2, ib.where(s), 'respawn gets a clone of the sentinel\'s own Arc<worker>' if oka2 else 'respawn receives %s' % fmt(a))
     Tb = Terms(b)
     ra = norm(Tb.call_term(rn))[2][0]
